@@ -6,12 +6,16 @@ static ALLOC: simcore::alloc::SimAlloc = simcore::alloc::SimAlloc;
 
 mod c01;
 mod c03;
+mod c06;
 mod c08;
 mod c12;
 mod c14;
 mod c20;
 mod c26;
+mod c28;
 mod c27;
+#[cfg(feature = "async")]
+mod executor;
 mod fields;
 mod genair;
 mod merkle;
@@ -39,6 +43,7 @@ fn main() {
     let mut scs = Vec::new();
     scs.extend(c01::scenarios());
     scs.extend(c03::scenarios());
+    scs.extend(c06::scenarios());
     scs.extend(transport::scenarios());
     scs.extend(c08::scenarios());
     scs.extend(c12::scenarios());
@@ -46,6 +51,7 @@ fn main() {
     scs.extend(merkle::scenarios());
     scs.extend(c20::scenarios());
     scs.extend(c26::scenarios());
+    scs.extend(c28::scenarios());
     scs.extend(c27::scenarios());
     simcore::driver::main(scs, config_name());
 }
